@@ -177,6 +177,10 @@ def gen_all(prop, tier, seed):
     write_if_changed(os.path.join(SRC, "gen_consts.rs"), consts_ref.rust_text())
     hs = scan()
     gen_registry(hs)
+    if ALT_REPO:
+        # the harness copy was rsynced with preserved mtimes: make sure cargo sees the generated files as new
+        for fn in ("gen_cells.rs", "gen_registry.rs", "gen_consts.rs"):
+            os.utime(os.path.join(SRC, fn), None)
     return hs
 
 
